@@ -34,6 +34,13 @@ pub(crate) mod keys_proto {
     include!(concat!(env!("OUT_DIR"), "/keys_proto.rs"));
 }
 
+/// Verification hooks: re-exports of the crate-private Noise transport for the external
+/// correspondence harness. Adds code only.
+#[cfg(feature = "verif")]
+pub mod verif {
+    pub use super::noise::{handshake, HandshakeTransport, NoiseSocket, VERIF_CONSTS};
+}
+
 /// The public key of a node's identity keypair.
 #[derive(Clone, Debug, PartialEq, Eq)]
 pub enum PublicKey {
